@@ -9,6 +9,10 @@
   Since /repo e62ce6d index and slice assignment on a URL list (`lst[i] = u`, `lst[a:b:st] = us`:
   coerce, assign on a copy, clear, add every item again through the de-duplication filter) are
   inside the theorems, and since /repo 41bec34 `Trackers.replace` validates before it clears.  The
+  Since /repo 3d3793a `reverse()` is part of the operation alphabet: on a URL list it is one slice
+  assignment of the reversed list (`C16_reverse*`); on the tiers container it is the inherited
+  `MutableSequence.reverse`, which changes nothing (`C16_tiers_reverse_partial`,
+  `C16_tiers_reverse_counterexample`) — metainfo and lists stay in sync, so C16 is not violated.  The
   code still falsifies the full statement in ONE way (open finding D16b: slice assignment on the
   tiers container, `torrent.trackers[a:b] = …`), so the full statement is kept as
   `def …_full : Prop`, the `_partial` theorems are proved for histories without that operation
@@ -119,7 +123,7 @@ theorem C16_setitem_atomic_and_deduplicated (isUrl : String → Bool) (known ite
       split at h
       · cases h; simp
       · split at h <;> (cases h; simp)
-    · simp only [urlsOp] at h
+    · simp only [urlsOp, urlsSetSlice] at h
       split at h
       · cases h; simp
       · split at h <;> (cases h; simp)
@@ -134,11 +138,97 @@ theorem C16_setitem_atomic_and_deduplicated (isUrl : String → Bool) (known ite
 theorem C16_setslice_self_identity (isUrl : String → Bool) (known items : List String)
     (hk : UOK isUrl known items) :
     urlsOp isUrl known items (.setSlice none none none items) = (some items, .ok) := by
-  simp only [urlsOp, coerceAll_id hk.2.1, sliceAssign, sliceRange, Option.getD_none, if_true, splice]
-  simp only [List.take_zero, List.nil_append, Nat.max_eq_right, Nat.zero_le,
-    List.drop_length, List.append_nil]
-  have := readd_id (isUrl := isUrl) (known := known) (acc := []) (xs := items) (by simpa using hk)
-  simpa using this
+  simp only [urlsOp]
+  exact urlsSetSlice_whole hk
+
+/-! ### `reverse()` (in the alphabet since /repo 3d3793a) -/
+
+/-- `MonitoredList.reverse()` on a URL list (webseeds, httpseeds, a tier; `known` = the URLs of the
+    other tiers) whose items are good: the callback is called exactly ONCE, with exactly the
+    reversed list, and no error is raised -/
+theorem C16_reverse (isUrl : String → Bool) (known items : List String) (hk : UOK isUrl known items) :
+    urlsOp isUrl known items .reverse = (some items.reverse, .ok) :=
+  urlsOp_reverse hk
+
+/-- … on `torrent.webseeds` (and, with the fields exchanged, `httpseeds`) of any state that
+    satisfies the invariant: no error, `url-list` is the reversed list (absent when empty), nothing
+    else changes, and reading the list back gives exactly the reversed list -/
+theorem C16_reverse_seeds (isUrl : String → Bool) (s : MI) (W : List String)
+    (hW : UOK isUrl [] W) (hw : s.urlList = writeSeeds W) :
+    step isUrl s (.webseeds (.edit .reverse)) = ({ s with urlList := writeSeeds W.reverse }, .ok) ∧
+    getSeeds isUrl (writeSeeds W.reverse) = .ok W.reverse := by
+  refine ⟨?_, getSeeds_writeSeeds (UOK_reverse hW)⟩
+  simp only [step, seedsOp, hw, getSeeds_writeSeeds hW, urlsOp_reverse hW, lastSeeds]
+
+theorem C16_reverse_httpseeds (isUrl : String → Bool) (s : MI) (H : List String)
+    (hH : UOK isUrl [] H) (hh : s.httpseeds = writeSeeds H) :
+    step isUrl s (.httpseeds (.edit .reverse)) = ({ s with httpseeds := writeSeeds H.reverse }, .ok) ∧
+    getSeeds isUrl (writeSeeds H.reverse) = .ok H.reverse := by
+  refine ⟨?_, getSeeds_writeSeeds (UOK_reverse hH)⟩
+  simp only [step, seedsOp, hh, getSeeds_writeSeeds hH, urlsOp_reverse hH, lastSeeds]
+
+/-- … on a tier `trackers[ti]` of good tiers: the callback gets the tiers with exactly that tier
+    reversed (a tier is never empty, so nothing is removed), no error -/
+theorem C16_reverse_tier (isUrl : String → Bool) (T : Tiers) (ti : Int) (k : Nat) (tier : Tier)
+    (hT : TiersOK isUrl T) (hpi : pyIndex T.length ti = some k) (hget : T[k]? = some tier) :
+    tierOp isUrl T ti .reverse = (some (wOf (splice T k (k + 1) [tier.reverse])), .ok) := by
+  have hu := tier_UOK_others hT hget
+  have hne : tier.reverse ≠ [] := by
+    have := hT.1 tier (List.mem_of_getElem? hget)
+    simpa using this
+  simp only [tierOp, hpi, hget, urlsOp_reverse hu, Option.map_some, afterTier, hne, if_false]
+
+/-- `reverse()` on the tiers container as one would state it: the tiers are reversed -/
+def C16_tiers_reverse_full : Prop :=
+  ∀ (isUrl : String → Bool) (s : MI) (T : Tiers), TiersOK isUrl T →
+    (heldOp isUrl s T .reverse).2.1 = T.reverse
+
+/-- what `Trackers.reverse()` (the inherited `MutableSequence.reverse`: swaps through
+    `Trackers.__setitem__` with integer indexes) really does on good tiers: NOTHING.  Each half of
+    each swap assigns a tier whose URLs are all stored already, so `Trackers.__setitem__` builds an
+    empty tier and assigns nothing.  No error; the callback runs (with the unchanged tiers) iff
+    there are at least two tiers; a state that mirrors the tiers stays exactly as it is -/
+theorem C16_tiers_reverse_partial (isUrl : String → Bool) (s : MI) (T : Tiers)
+    (hT : TiersOK isUrl T) :
+    tiersOp isUrl T .reverse = (if T.length < 2 then none else some (wOf T), .ok) ∧
+    (heldOp isUrl s T .reverse).2 = (T, .ok) ∧
+    (Mirrors s T → (heldOp isUrl s T .reverse).1 = s) := by
+  have hl := tiersReverseLoop_noop (isUrl := isUrl) (n := T.length) (is := List.range (T.length / 2))
+    (last := none) hT rfl (fun i hi => by have := List.mem_range.1 hi; omega)
+  have h1 : tiersOp isUrl T .reverse = (if T.length < 2 then none else some (wOf T), .ok) := by
+    simp only [tiersOp, hl]
+    by_cases h2 : T.length < 2
+    · have : T.length / 2 = 0 := by omega
+      simp [h2, this]
+    · have : T.length / 2 ≠ 0 := by omega
+      simp [h2, this]
+  refine ⟨h1, ?_, ?_⟩
+  · simp only [heldOp, h1]
+    by_cases h2 : T.length < 2 <;> simp [h2, wOf]
+  · intro hm
+    simp only [heldOp, h1]
+    split
+    · rfl
+    · rename_i w out hw
+      split at hw
+      · cases hw
+      · cases hw
+        obtain ⟨ha, hal⟩ := hm
+        cases s
+        simp_all [writeTrackers, wOf]
+
+/-- `tr = [[a], [b]]; tr.reverse()` leaves `[[a], [b]]` -/
+theorem C16_tiers_reverse_counterexample : ¬ C16_tiers_reverse_full := by
+  intro h
+  have := h (fun u => u == "http://a/1" || u == "http://b/2") MI.init [["http://a/1"], ["http://b/2"]]
+    (by
+      refine ⟨by decide, by decide, ?_⟩
+      intro u hu
+      simp only [List.flatten_cons, List.flatten_nil, List.append_nil, List.cons_append, List.nil_append,
+        List.mem_cons, List.not_mem_nil, or_false] at hu
+      rcases hu with rfl | rfl <;> exact ⟨by decide, by decide⟩)
+  revert this
+  decide
 
 /-! ### non-vacuity -/
 
@@ -194,6 +284,26 @@ example :
       = some ["udp://c:80/3", "http://b/2", "http://a/1"] ∧
     (step wIsUrl s (.webseeds (.edit (.setItem 0 "udp://c:80/3")))).1.urlList
       = some ["udp://c:80/3", "http://b/2"] := by decide
+
+/-- `reverse()`: on a seed list and on a tier it reverses (one write-back), on the tiers container
+    it changes nothing, on an empty list it does nothing, on a tier that does not exist it is the
+    IndexError of `trackers[ti]`; `Spec.holds` afterwards -/
+example :
+    let s := run wIsUrl MI.init [.trackers (.set (.list [.list ["http://a/1", "http://b/2"], .str "udp://c:80/3"])),
+      .webseeds (.set (.list ["http://a/1", "http://b/2", "udp://c:80/3"]))]
+    (step wIsUrl s (.webseeds (.edit .reverse))) =
+      ({ s with urlList := some ["udp://c:80/3", "http://b/2", "http://a/1"] }, .ok) ∧
+    (step wIsUrl s (.trackers (.tier 0 .reverse))) =
+      ({ s with announce := some "http://b/2",
+                announceList := some [["http://b/2", "http://a/1"], ["udp://c:80/3"]] }, .ok) ∧
+    (step wIsUrl s (.trackers .reverse)) = (s, .ok) ∧
+    (step wIsUrl MI.init (.webseeds (.edit .reverse))) = (MI.init, .ok) ∧
+    (step wIsUrl MI.init (.trackers .reverse)) = (MI.init, .ok) ∧
+    (step wIsUrl MI.init (.trackers (.tier 0 .reverse))) = (MI.init, .error .index) ∧
+    (∀ op ∈ [Op.webseeds (.edit .reverse), .trackers (.tier 0 .reverse), .trackers .reverse],
+      op.affected = false ∧
+      Spec.holds wIsUrl (step wIsUrl s op).1 (readBack wIsUrl (step wIsUrl s op).1) = true) := by
+  decide +kernel
 
 /-! ### regression: the former finding D16a (repaired in /repo e62ce6d) -/
 
